@@ -241,8 +241,10 @@ class Report:
                 'verdict is about the executions observed in this run only'],
             'wall_s': round(wall, 2), 'violations': len(self.violations),
         }
-        evdir = ROOT / 'evidence'
-        evdir.mkdir(exist_ok=True)
+        # VERIF_OUT redirects evidence / replays (used when a check is pointed at a scratch tree with a seeded change)
+        outroot = Path(os.environ.get('VERIF_OUT') or ROOT)
+        evdir = outroot / 'evidence'
+        evdir.mkdir(parents=True, exist_ok=True)
         (evdir / f'{self.prop}.json').write_text(json.dumps(ev, indent=1, default=str) + '\n')
         for fid, n in self.known_seen.items():
             if fid.startswith('_ex_'):
@@ -250,7 +252,7 @@ class Report:
             f = self.known[fid]
             print(f"KNOWN-FINDING: property={self.prop} {fid}: {f.get('mechanism', '')} (n={n} this run)")
         if self.violations:
-            rdir = ROOT / 'replays' / self.prop
+            rdir = outroot / 'replays' / self.prop
             rdir.mkdir(parents=True, exist_ok=True)
             seen = set()
             for i, v in enumerate(self.violations[:25]):
